@@ -87,6 +87,30 @@ def cell (v : P3) : Box := ⟨v, ⟨v.x + 1, v.y + 1, v.z + 1⟩⟩
 /-- centre of that cell, doubled -/
 def centre (v : P3) : P3 := ⟨2 * v.x + 1, 2 * v.y + 1, 2 * v.z + 1⟩
 
+/-! ## convex polytopes (any orientation): intersections of half-spaces with integer normals -/
+
+/-- the half-space `n · x < d` (mesh units) -/
+structure HalfSpace where
+  n : P3
+  d : Int
+deriving DecidableEq, Repr, Inhabited
+
+def dot (a b : P3) : Int := a.x * b.x + a.y * b.y + a.z * b.z
+
+abbrev Polytope := List HalfSpace
+
+/-- the point with doubled coordinates `p` is strictly inside every half-space -/
+def memPoly (P : Polytope) (p : P3) : Bool := P.all fun h => decide (dot h.n p < 2 * h.d)
+
+/-- … inside or on the boundary -/
+def memPolyClosed (P : Polytope) (p : P3) : Bool := P.all fun h => decide (dot h.n p ≤ 2 * h.d)
+
+/-- the point lies on none of the face planes -/
+def offFaces (P : Polytope) (p : P3) : Bool := P.all fun h => decide (dot h.n p ≠ 2 * h.d)
+
+/-- the inside test of one volume: a predicate on (doubled) points -/
+abbrev Inside := P3 → Bool
+
 /-! ## integer poses: scale, flip, permute the axes, translate -/
 
 inductive Perm3 where
@@ -148,8 +172,10 @@ inductive Mode where
   | IN | OUT
 deriving DecidableEq, Repr, Inhabited
 
-/-- `in_volume(points, vol)` for an `(N,3)` array: one bit per point, in order (`mode` plays no role here). -/
-def inVolumePoints (S : Solid) (pts : List P3) : List Bool := pts.map (mem S)
+/-- `in_volume(points, vol)` for an `(N,3)` array: one bit per point, in order (`mode` plays no role here).
+`μ` is the inside test of the volume: `mem S` for a box complex, `memPoly P` for a convex polytope — and, on the navis
+side, whatever the ray caster answers. -/
+def inVolumePoints (μ : Inside) (pts : List P3) : List Bool := pts.map μ
 
 /-- `if mode == 'OUT': in_v = ~in_v` -/
 def keepMask (mode : Mode) (inV : List Bool) : List Bool :=
@@ -192,15 +218,15 @@ def subsetTree (t : Tree) (subset : List Int) : Tree :=
   let nodes := t.nodes.filter fun v => subset.contains v.id
   { nodes := nodes, conns := t.conns.filter fun c => (nodes.map (·.id)).contains c.node }
 
-def inVolumeTree (S : Solid) (mode : Mode) (t : Tree) : Tree :=
-  if (keepMask mode (inVolumePoints S (t.nodes.map (·.pos)))).all id then t
-  else subsetTree t (masked t.ids (keepMask mode (inVolumePoints S (t.nodes.map (·.pos)))))
+def inVolumeTree (μ : Inside) (mode : Mode) (t : Tree) : Tree :=
+  if (keepMask mode (inVolumePoints μ (t.nodes.map (·.pos)))).all id then t
+  else subsetTree t (masked t.ids (keepMask mode (inVolumePoints μ (t.nodes.map (·.pos)))))
 
 /-- `x.prune_by_volume(v, mode)` is `in_volume(copy, v, mode=mode, inplace=True)`. -/
-def pruneByVolume (S : Solid) (mode : Mode) (t : Tree) : Tree := inVolumeTree S mode t
+def pruneByVolume (μ : Inside) (mode : Mode) (t : Tree) : Tree := inVolumeTree μ mode t
 
 /-- `in_volume(NeuronList, vol)` -/
-def inVolumeList (S : Solid) (mode : Mode) (ts : List Tree) : List Tree := ts.map (inVolumeTree S mode)
+def inVolumeList (μ : Inside) (mode : Mode) (ts : List Tree) : List Tree := ts.map (inVolumeTree μ mode)
 
 /-! ### several volumes: Python dicts as association lists (insertion order, unique keys) -/
 
@@ -219,17 +245,17 @@ def mkDict {β} (items : List (String × β)) : List (String × β) :=
 
 /-- `data = dict(); for v in volume: data[v] = in_volume(x, volume[v], …)` for a generic single-volume
 answer `f` (mask of points, pruned neuron, pruned neuron list). -/
-def inVolumeDict {β} (f : Solid → β) (vols : List (String × Solid)) : List (String × β) :=
+def inVolumeDict {σ β} (f : σ → β) (vols : List (String × σ)) : List (String × β) :=
   vols.foldl (fun d kv => dset d kv.1 (f kv.2)) []
 
 /-- a *list* of volumes is keyed by `Volume.name`; duplicate names raise `ValueError` (`none`) -/
-def inVolumeNamed {β} (f : Solid → β) (vols : List (String × Solid)) : Option (List (String × β)) :=
+def inVolumeNamed {σ β} (f : σ → β) (vols : List (String × σ)) : Option (List (String × β)) :=
   if (vols.map (·.1)).Nodup then some (inVolumeDict f (mkDict vols)) else none
 
 /-- `intersection_matrix(x, volumes, attr)`: rows = volume names, columns = neurons. -/
-def intersectionMatrix {β} (attr : Tree → β) (mode : Mode) (vols : List (String × Solid)) (ts : List Tree) :
-    List (String × List β) :=
-  (inVolumeDict (fun S => inVolumeList S mode ts) vols).map fun kv => (kv.1, kv.2.map attr)
+def intersectionMatrix {σ β} (inside : σ → Inside) (attr : Tree → β) (mode : Mode) (vols : List (String × σ))
+    (ts : List Tree) : List (String × List β) :=
+  (inVolumeDict (fun v => inVolumeList (inside v) mode ts) vols).map fun kv => (kv.1, kv.2.map attr)
 
 /-! ## `snap` -/
 
@@ -292,9 +318,9 @@ def subsetDots (d : Dots) (subset : List Nat) : DotsOut :=
 def allDots (d : Dots) : DotsOut :=
   { kept := List.range d.pts.length, conns := d.conns.map fun c => (c.cid, attach d.pts c) }
 
-def inVolumeDots (S : Solid) (mode : Mode) (d : Dots) : DotsOut :=
-  if (keepMask mode (inVolumePoints S d.pts)).all id then allDots d
-  else subsetDots d (maskedIdx (keepMask mode (inVolumePoints S d.pts)))
+def inVolumeDots (μ : Inside) (mode : Mode) (d : Dots) : DotsOut :=
+  if (keepMask mode (inVolumePoints μ d.pts)).all id then allDots d
+  else subsetDots d (maskedIdx (keepMask mode (inVolumePoints μ d.pts)))
 
 /-! ### MeshNeuron -/
 
@@ -339,13 +365,13 @@ def allMesh (m : Mesh) : MeshOut :=
   { kept := List.range m.verts.length, faces := m.faces,
     conns := m.conns.map fun c => (c.cid, attach m.verts c), subset := List.range m.verts.length }
 
-def inVolumeMesh (S : Solid) (mode : Mode) (m : Mesh) : MeshOut :=
-  if (keepMask mode (inVolumePoints S m.verts)).all id then allMesh m
-  else subsetMesh m (maskedIdx (keepMask mode (inVolumePoints S m.verts)))
+def inVolumeMesh (μ : Inside) (mode : Mode) (m : Mesh) : MeshOut :=
+  if (keepMask mode (inVolumePoints μ m.verts)).all id then allMesh m
+  else subsetMesh m (maskedIdx (keepMask mode (inVolumePoints μ m.verts)))
 
 /-- a face with vertices on both sides of the surface -/
-def Face.straddles (S : Solid) (verts : List P3) (f : Face) : Bool :=
-  let i := fun k => mem S (verts.getD k ⟨0, 0, 0⟩)
+def Face.straddles (μ : Inside) (verts : List P3) (f : Face) : Bool :=
+  let i := fun k => μ (verts.getD k ⟨0, 0, 0⟩)
   !(i f.a == i f.b && i f.b == i f.c)
 
 /-! ## run-time checkers evaluated by the driver on navis' own output (soundness: `Props/C18`) -/
@@ -364,6 +390,6 @@ def checkNearest (data : List P3) (p : P3) (ix : Nat) (dd : Int) : Bool :=
   | some q => decide (d2 p q = dd) && data.all fun r => decide (dd ≤ d2 p r)
 
 /-- the mask navis returns for points is the exact membership -/
-def checkMask (S : Solid) (pts : List P3) (mask : List Bool) : Bool := mask == inVolumePoints S pts
+def checkMask (μ : Inside) (pts : List P3) (mask : List Bool) : Bool := mask == inVolumePoints μ pts
 
 end Navis.Volume
